@@ -631,6 +631,8 @@ class Executor:
         return compare(self.CMP[type(op)], a, b)
 
     def contains(self, cont, x, st, node):
+        if isinstance(cont.kind, KStr) and isinstance(x.kind, KStr) and isinstance(cont.py, str) and isinstance(x.py, str):
+            return TRUE if x.py in cont.py else FALSE       # substring test of two string CONSTANTS: folded
         if isinstance(cont.kind, KList):
             if isinstance(cont.kind.elem, KNone):
                 return FALSE
